@@ -186,8 +186,10 @@ Record fscfg := {
   f_shard : shardfn;
   f_esc : bytes -> bytes;        (* the escapingFunc handed to Init *)
   q_no_escape : bool;            (* DEFECT of the pinned tree: pathForKey ignores escapingFunc *)
-  q_empty_ok : bool              (* DEFECT of the pinned tree: commit("") (= abort) reports success,
+  q_empty_ok : bool;             (* DEFECT of the pinned tree: commit("") (= abort) reports success,
                                     and the empty key is looked up like any other *)
+  q_mkdir_exist_fails : bool     (* pinned tree: haveDir returns os.Mkdir's EEXIST, so the loser of two first
+                                    writers racing for one shard directory fails its Put *)
 }.
 
 (* base32, RFC 4648 alphabet, no padding: fsstore.b32enc *)
@@ -230,7 +232,8 @@ Record wenv := {
   we_names : nat -> comp;       (* the random staging names, in the order they are drawn *)
   we_dest : option path;        (* None: commit("") *)
   we_kind : wkind;
-  we_empty_ok : bool
+  we_empty_ok : bool;
+  we_exist_fails : bool
 }.
 
 Inductive wpc :=
@@ -280,6 +283,14 @@ Definition after_rename (env : wenv) (st : path) (second : bool) (r : res errno 
       else if is_exist e then WExist st
       else WDone (Err e)
   | Ok _ => WDone (Ok tt)
+  end.
+
+(* the error of os.Mkdir as haveDir passes it on: on the pinned tree unchanged; repaired: "it exists"
+   is what haveDir wanted *)
+Definition mkdir_res (env : wenv) (r : res errno unit) : res errno unit :=
+  match r with
+  | Err EEXIST => if we_exist_fails env then r else Ok tt
+  | _ => r
   end.
 
 (* a haveDir frame returns r to the frame below it (or to move) *)
@@ -334,9 +345,9 @@ Definition w_step (env : wenv) (pc : wpc) (r : res errno rv) : wpc :=
   | WDirDown st p stack =>
       match r with
       | Err ENOENT => WDirDown st (dirname p) (p :: stack)
-      | _ => have_ret st (strip r) stack
+      | _ => have_ret st (mkdir_res env (strip r)) stack
       end
-  | WDirUp st p stack => have_ret st (strip r) stack
+  | WDirUp st p stack => have_ret st (mkdir_res env (strip r)) stack
   | WExist st => WDone (strip r)
   | WDone x => WDone x
   end.
@@ -390,7 +401,8 @@ Definition fs_put (cfg : fscfg) (st : fstate) (kind : wkind) (k : key) (chunks :
       let ctr := fs_ctr st in
       let env := {| we_base := f_base cfg;
                     we_names := fun i => stage_name (ctr + N.of_nat i);
-                    we_dest := d; we_kind := kind; we_empty_ok := q_empty_ok cfg |} in
+                    we_dest := d; we_kind := kind; we_empty_ok := q_empty_ok cfg;
+                    we_exist_fails := q_mkdir_exist_fails cfg |} in
       let '(f1, r, log) := w_run (w_fuel env chunks) env (fs_fs st) (WCreate 0 chunks) [] in
       ({| fs_fs := f1; fs_hnd := fs_hnd st; fs_ctr := ctr + 1 |}, obs_of_res r, rev log)
   end.
@@ -500,6 +512,8 @@ Definition fs_fresh (cfg : fscfg) : fs := fst (fs_init cfg (dirs_of [] (f_base c
 Definition fstate0 (cfg : fscfg) : fstate := {| fs_fs := fs_fresh cfg; fs_hnd := []; fs_ctr := 0 |}.
 
 Definition pinned_cfg (base : path) (sh : shardfn) : fscfg :=
-  {| f_base := base; f_shard := sh; f_esc := b32enc; q_no_escape := true; q_empty_ok := true |}.
+  {| f_base := base; f_shard := sh; f_esc := b32enc; q_no_escape := true; q_empty_ok := true;
+     q_mkdir_exist_fails := true |}.
 Definition repaired_cfg (base : path) (sh : shardfn) : fscfg :=
-  {| f_base := base; f_shard := sh; f_esc := b32enc; q_no_escape := false; q_empty_ok := false |}.
+  {| f_base := base; f_shard := sh; f_esc := b32enc; q_no_escape := false; q_empty_ok := false;
+     q_mkdir_exist_fails := false |}.
